@@ -394,7 +394,7 @@ def run(ctx):
     rng = ctx.rng
     try:
         cfgs = configs()
-        n = ctx.pick(220, 5000)
+        n = ctx.per_shard(220, 5000)
         for i in range(n):
             text = scope_program(rng, big=(rng.choice([60, 300, 800, 3000]) if i % 97 == 5 else 0))
             sel = cfgs if (ctx.tier == 'thorough' or i % 6 == 0) else [cfgs[i % len(cfgs)], cfgs[(i * 5 + 3) % len(cfgs)]]
@@ -404,7 +404,7 @@ def run(ctx):
 
         def opts_fn(i, r):
             return jsgen.Opts(clean=True, allow_with=False)
-        progs = work.Programs(ctx, ctx.pick(120, 2500), opts_fn=opts_fn, layouts=('space', 'lines'))
+        progs = work.Programs(ctx, ctx.per_shard(120, 2500), opts_fn=opts_fn, layouts=('space', 'lines'))
         for i, (text, meta) in enumerate(progs):
             check(ctx, text, [cfgs[i % len(cfgs)], cfgs[(i + 7) % len(cfgs)]], meta['origin'], reuse=bool(i & 1))
             if ctx.out_of_time():
